@@ -215,6 +215,8 @@ def gen_world(rng, opts=None):
              nonmonotone_factors=False, overlapping_dividends=False, start=datetime.date(2020, 1, 2),
              integral_splits=True)
     o.update(opts or {})
+    if isinstance(o['start'], str):          # a scenario read back from a replay file
+        o['start'] = datetime.date.fromisoformat(o['start'][:10])
     w = World()
     nd = o['ndays']
     days = make_calendar(rng, o['start'], nd, o['holiday_p'], o['gap_p'])
@@ -432,6 +434,12 @@ def apply_overrides(w, ov):
     for sid, dints in ov.get('drop_bars', {}).items():   # a listed, unsuspended instrument without a bar on these days (no market data)
         if sid in w.stock_bars:
             w.stock_bars[sid] = [b for b in w.stock_bars[sid] if dint(b['d']) not in set(dints)]
+    for new_id, src in ov.get('siblings', {}).items():   # a second contract of the same underlying (same bars, own id)
+        if src in w.future_bars:
+            w.future_bars[new_id] = [dict(b) for b in w.future_bars[src]]
+            w.instruments[new_id] = dict(w.instruments[src])
+            if w.minutes and src in w.minutes:
+                w.minutes[new_id] = [dict(b) for b in w.minutes[src]]
     for sid, vol in ov.get('volume', {}).items():      # every bar of the instrument gets this volume (turnover rescaled: same vwap)
         for b in w.stock_bars.get(sid, []):
             if b['volume']:
